@@ -145,6 +145,7 @@ structure DS where
   g : PGraph := {}
   raw : Array String := #[]
   kinds : Array (Nat × String × NKind) := #[]
+  gtree : Array (Option Nat × List Nat) := #[]
   inDump : Bool := false
   -- counters
   cases : Nat := 0
@@ -173,6 +174,7 @@ def parseOp (toks : List String) : Option (List Op) :=
   | ["clone", h] => some [.cloneNode (pNat h)]
   | ["killclock", c] => some [.destroyClock (pNat c)]
   | ["tconnect", cls, h, i, d] => some [.typedConnect (pNat cls) (pNat h) (pNat i) (pONP d)]
+  | ["moveinto", _, _] => some []     -- NodeGroup::moveInto: the group tree is evaluated on the dumps, not modelled (no node membership changes)
   | ["getclocked", c] => some [.getClockedNodes (pNat c)]
   | ["setdrv", k, c, h] => some [.setLogicDriver (pNat k) (pNat c) (pNat h)]
   | "copysubnet" :: cc :: nIn :: rest =>
@@ -282,6 +284,8 @@ def finishDump (d : DS) : IO DS := do
   let bad := invReport si
   let bad := if d.mode == "design" ∧ !(decide (AllGrouped si)) then bad ++ ["ungrouped"] else bad
   let mut bad := bad
+  let gv := groupTreeViolations d.gtree
+  if !gv.isEmpty then bad := bad ++ ["grouptree:" ++ ";".intercalate (gv.take 4)]
   if d.mode == "ops" then
     -- two-state clause on the implementation's own consecutive graphs: no connection that persists sees another driver type
     match d.prevImpl with
@@ -295,7 +299,7 @@ def finishDump (d : DS) : IO DS := do
   if !bad.isEmpty then
     IO.println s!"PROPFAIL case={d.caseId} step={d.stepNo} variant={d.variant} at={d.lastAt} op=[{d.lastOp}] violated={",".intercalate bad}"
     d := { d with propfails := d.propfails + 1 }
-  return { d with g := {}, raw := #[], kinds := #[] }
+  return { d with g := {}, raw := #[], kinds := #[], gtree := #[] }
 
 partial def loop (h : IO.FS.Stream) (d : DS) : IO DS := do
   let line ← h.getLine
@@ -318,6 +322,8 @@ partial def loop (h : IO.FS.Stream) (d : DS) : IO DS := do
       let caE := ((rest.drop (pNat n)).drop 2).map pNP     -- after the marker "c" and the count
       loop h { d with g := { d.g with clocks := d.g.clocks.push setE, caches := d.g.caches.push caE, calive := d.g.calive.push true, cdrv := d.g.cdrv.push (pOH cd),
                                        rdrv := d.g.rdrv.push (pOH rd) }, raw := d.raw.push ln }
+    | "gt" :: _ :: par :: _ :: rest =>
+      loop h { d with gtree := d.gtree.push (pOH par, rest.map fun s => if s == "!" then deadHandle else pH s) }
     | "t" :: hh :: rest => loop h { d with kinds := d.kinds.push (pNat hh, rest.headD "?", parseKind rest) }
     | _ =>
       IO.println s!"DIFF case={d.caseId} unparsed dump line [{ln}]"
@@ -332,7 +338,7 @@ partial def loop (h : IO.FS.Stream) (d : DS) : IO DS := do
                     variants := if mode == "design" then bump d.variants v else d.variants,
                     flags := (rest.drop 1).foldl bump d.flags }
   | ["end"] => loop h d
-  | "D" :: n :: _ => loop h { d with inDump := true, g := { size := pNat n }, raw := #[ln], kinds := #[] }
+  | "D" :: n :: _ => loop h { d with inDump := true, g := { size := pNat n }, raw := #[ln], kinds := #[], gtree := #[] }
   | "at" :: w :: _ => loop h { d with lastAt := w, stepNo := d.stepNo + 1, boundaries := bump d.boundaries w }
   | "rl" :: w :: _ => loop h { d with reallocs := bump d.reallocs w }
   | "sh" :: moved :: _ => loop h { d with flags := bump d.flags (if pNat moved > 0 then "shuffle_changed_order" else "shuffle_identity") }
